@@ -594,6 +594,21 @@ var genScenarios = map[string]func(g *Gen) []scriptStep{
 			advStep(40 * time.Second), pullStep(sS0, 10), advStep(11 * time.Second), pullStep(sS0, 10),
 		}
 	},
+	// a sibling subscription has acknowledged what the ordered one still holds; a snapshot of the
+	// ordered one records ITS OWN acknowledgement state only; after a seek to it the chain is
+	// intact: one same-key message at a time (C05, C13)
+	"snapshot-sibling-acks": func(g *Gen) []scriptStep {
+		return []scriptStep{
+			opStep(&Op{Kind: "CreateTopic", Name: sT0}),
+			subStep(&SubReq{Name: sS0, Topic: sT0, Ordered: true}), subStep(&SubReq{Name: sS1, Topic: sT0}),
+			pubStep(sT0, "k1"), pubStep(sT0, "k1", "k2"),
+			pullStep(sS1, 10), ackLeased(sS1, "Ack", 0, false),
+			opStep(&Op{Kind: "CreateSnap", Name: "projects/p/snapshots/n0", Name2: sS0}),
+			pubStep(sT0, "k1"),
+			opStep(&Op{Kind: "SeekSnap", Name: sS0, Name2: "projects/p/snapshots/n0"}),
+			pullStep(sS0, 10), ackLeased(sS0, "Ack", 0, true), pullStep(sS0, 10), ackLeased(sS0, "Ack", 0, true), pullStep(sS0, 10),
+		}
+	},
 	"ordered-replay": func(g *Gen) []scriptStep {
 		return []scriptStep{
 			opStep(&Op{Kind: "CreateTopic", Name: sT0}),
@@ -739,7 +754,7 @@ var genScenarios = map[string]func(g *Gen) []scriptStep{
 	},
 }
 
-var scenarioNames = []string{"ordered-replay", "ordered-prune", "retry-replaced", "dl-then-prune-messages", "prune-expired-minage", "nack-mixed-attempts", "nack-after-ack-dl", "dl-shared-target", "filter-literals", "ttl-raised", "prune-topics-batch-one", "dl-deleted-topic", "dl-ordered-target", "dl-filtered-target", "snapshot-bystander", "seek-revive-late", "idle-expired-live", "filter-replaced", "ordered-chain", "lease-changes"}
+var scenarioNames = []string{"ordered-replay", "ordered-prune", "snapshot-sibling-acks", "retry-replaced", "dl-then-prune-messages", "prune-expired-minage", "nack-mixed-attempts", "nack-after-ack-dl", "dl-shared-target", "filter-literals", "ttl-raised", "prune-topics-batch-one", "dl-deleted-topic", "dl-ordered-target", "dl-filtered-target", "snapshot-bystander", "seek-revive-late", "idle-expired-live", "filter-replaced", "ordered-chain", "lease-changes"}
 
 // scenariosFor lists the templates a generator profile may start with
 func scenariosFor(profile string) []string {
@@ -747,7 +762,7 @@ func scenariosFor(profile string) []string {
 	case "delivery", "general", "prune":
 		return scenarioNames
 	case "seek":
-		return []string{"seek-revive-late", "ordered-chain", "snapshot-bystander", "ordered-replay", "seek-retention"}
+		return []string{"seek-revive-late", "ordered-chain", "snapshot-bystander", "ordered-replay", "seek-retention", "snapshot-sibling-acks"}
 	case "names":
 		return []string{"idle-expired-live", "topic-recreated"}
 	case "config":
